@@ -103,6 +103,23 @@ def accStep (st : AccSt) (ws : List String) : AccSt × List String :=
           | some a' => (st.set r a', [])
           | none => (st, ["bad-op"])
       | _, _ => (st, ["bad-op"])
+  | ["acc.kindmerge", k] =>
+      let kind? : Option AccKind := match k with
+        | "Counter" => some .counter | "Minimum" => some .minimum | "Maximum" => some .maximum
+        | "Mean" => some .mean | "Variance" => some .variance | "Covariance" => some .covariance
+        | "RunningMean" => some .runningMean | "RunningVariance" => some .runningVariance
+        | "RunningCovariance" => some .runningCovariance
+        | "CacheAccumulator" => some .cacheAccumulator | "CacheMaximum" => some .cacheMaximum
+        | "ReservoirSampling" => some .reservoirSampling | "CDFEstimator" => some .cdfEstimator
+        | "QuantileEstimator" => some .quantileEstimator | "MedianEstimator" => some .medianEstimator
+        | "BinSorter" => some .binSorter | "DynamicBinSorter" => some .dynamicBinSorter
+        | _ => none
+      match kind? with
+      | some kind =>
+          -- receiver state abstracted to a token: 0 = unchanged, 1 = merged
+          let r := kind.mergeOutcome (fun (_ _ : Nat) => 1) 0 0
+          (st, [(match r.1 with | .ok _ => "ok" | .error e => "!" ++ e.name) ++ (if r.2 = 0 then " unchanged" else " merged")])
+      | none => (st, ["bad-op"])
   | ["acc.read", r] =>
       match st.get r with
       | some a => (st, [accRead a])
